@@ -59,8 +59,8 @@ def rw_R3(text):
         nonlocal n
         n += 1
         return '{ let __t = %s; %s = %s || __t; }' % (m.group(2).strip(), m.group(1), m.group(1)) + _keep_lines(m.group(0))
-    text = re.sub(r'\b(\w+)\s*&=\s*([^;]+);', sub_and, text)
-    text = re.sub(r'\b(\w+)\s*\|=\s*([^;]+);', sub_or, text)
+    text = re.sub(r'(?<![\w\.])((?:\w+\.)*\w+)\s*&=\s*([^;]+);', sub_and, text)
+    text = re.sub(r'(?<![\w\.])((?:\w+\.)*\w+)\s*\|=\s*([^;]+);', sub_or, text)
 
     def sub_bar(m):
         nonlocal n
@@ -620,8 +620,10 @@ class UnitBuilder:
                     for t in toks[3:]:
                         if t.startswith('mode='):
                             m2 = t.split('=', 1)[1]
-                    res += self._read_template(os.path.join(os.path.dirname(path), inc), True, depth + 1, m2)
+                    if any(x.split('[')[0] == inc for x in self.includes):
+                        continue   # already included (first inclusion wins)
                     self.includes.append(inc + ('[' + m2 + ']' if m2 else ''))
+                    res += self._read_template(os.path.join(os.path.dirname(path), inc), True, depth + 1, m2)
                 continue
             if exporting:
                 res.append((ln, tname, i + 1, mode))
